@@ -54,7 +54,7 @@ Definition a (d : option N) (e : list N) (f : N) : faddr := {| fa_dev := d; fa_e
 Definition c01_witness_result : list op :=
   [ Connect 1;
     Inbound 1 {| d_src := a None [0%N] 0; d_dst := a (Some 0%N) [9%N] 9; d_ctr := 5; d_ref := Some 3%N;
-                 d_ack := false; d_body := BResult 1 |} ].
+                 d_ack := false; d_body := BResult 1; d_fct := 0; d_sel := 0 |} ].
 Theorem C01_pinned_result_for_result_refuted :
   exists ops, accepted_trace (judge minit (snd (run_pinned init ops))) = false.
 Proof. exists c01_witness_result. vm_compute. reflexivity. Qed.
@@ -65,7 +65,7 @@ Print Assumptions C01_pinned_result_for_result_refuted.
 Definition c01_witness_source : list op :=
   [ Connect 1;
     Inbound 1 {| d_src := a None [0%N] 0; d_dst := a None [7%N] 7; d_ctr := 6; d_ref := None;
-                 d_ack := false; d_body := BCmd CRead (PData 14 0) |} ].
+                 d_ack := false; d_body := BCmd CRead (PData 14 0); d_fct := 0; d_sel := 0 |} ].
 Theorem C01_pinned_unknown_destination_source_refuted :
   exists ops, accepted_trace (judge minit (snd (run_pinned init ops))) = false.
 Proof. exists c01_witness_source. vm_compute. reflexivity. Qed.
@@ -88,7 +88,7 @@ Definition tree (d : N) : disc_msg :=
      dm_feats := [ {| df_ent := [0%N]; df_id := 0; df_type := T_NODEMGMT; df_role := RSpecial |};
                    {| df_ent := [1%N]; df_id := 1; df_type := T_LOADCONTROL; df_role := RClient |} ] |}.
 Definition dg (src dst : faddr) (ctr : N) (ack : bool) (b : body) : dgram :=
-  {| d_src := src; d_dst := dst; d_ctr := ctr; d_ref := None; d_ack := ack; d_body := b |}.
+  {| d_src := src; d_dst := dst; d_ctr := ctr; d_ref := None; d_ack := ack; d_body := b; d_fct := 0; d_sel := 0 |}.
 Definition lc : faddr := a (Some 0%N) [1%N] 1.     (* local LoadControl server [1]:1 *)
 Definition cl : faddr := a (Some 0%N) [1%N] 2.     (* local LoadControl client [1]:2 *)
 Definition nm : faddr := a (Some 0%N) [0%N] 0.
@@ -99,9 +99,9 @@ Definition c01_example : list op :=
   [ AddLocalEntity [1%N]; AddLocalFeature [1%N] T_LOADCONTROL RServer; AddLocalFeature [1%N] T_LOADCONTROL RClient;
     AddFunction [1%N] 1 14 true true; SetData [1%N] 1 14 55;
     Connect 1; Inbound 1 {| d_src := a None [0%N] 0; d_dst := nm; d_ctr := 1; d_ref := Some 1%N; d_ack := false;
-                           d_body := BCmd CReply (PDiscovery (tree 1)) |};
+                           d_body := BCmd CReply (PDiscovery (tree 1)); d_fct := 0; d_sel := 0 |};
     Connect 2; Inbound 2 {| d_src := a None [0%N] 0; d_dst := nm; d_ctr := 1; d_ref := Some 1%N; d_ack := false;
-                           d_body := BCmd CReply (PDiscovery (tree 2)) |};
+                           d_body := BCmd CReply (PDiscovery (tree 2)); d_fct := 0; d_sel := 0 |};
     Inbound 1 (dg (r1 1) lc 10 false (BCmd CRead (PData 14 0)));        (* read of a server feature: reply with the data *)
     Inbound 2 (dg (r1 2) cl 11 false (BCmd CRead (PData 14 0)));        (* read of a client feature: error *)
     Inbound 1 (dg (r1 1) lc 12 true (BCmd CWrite (PData 14 66)));       (* write without binding: error *)
@@ -113,7 +113,13 @@ Definition c01_example : list op :=
     Inbound 2 (dg (r1 2) cl 18 false (BCmd CNotify (PData 17 9)));      (* a function the sender's type lacks: error *)
     Inbound 2 (dg (r1 2) (a None [7%N] 7) 19 false (BCmd CRead (PData 14 0)));   (* unknown destination: error, local device *)
     Inbound 2 (dg (r1 2) (a None [7%N] 7) 20 true (BResult 0));         (* result to an unknown destination: nothing *)
-    Inbound 2 (dg (a (Some 2%N) [5%N] 5) lc 21 true (BCmd CRead (PData 14 0)))   (* unannounced source: dropped *) ].
+    Inbound 2 (dg (a (Some 2%N) [5%N] 5) lc 21 true (BCmd CRead (PData 14 0)));  (* unannounced source: dropped *)
+    (* a read restricted by a selector as this stack sends it (function element present but empty): one reply, full data *)
+    Inbound 1 {| d_src := r1 1; d_dst := lc; d_ctr := 22; d_ref := None; d_ack := false;
+                 d_body := BCmd CRead (PData 14 0); d_fct := 2; d_sel := 1 |};
+    (* a notify whose function element names another function: dispatch is on the data element *)
+    Inbound 2 {| d_src := r1 2; d_dst := cl; d_ctr := 23; d_ref := None; d_ack := true;
+                 d_body := BCmd CNotify (PData 14 9); d_fct := 3; d_sel := 0 |} ].
 Example C01_nonvacuous :
   map snd (skipn 9 (snd (run init c01_example))) =
     [ [OReply 1 10 lc (r1 1) 14 55];
@@ -127,6 +133,8 @@ Example C01_nonvacuous :
       [OResult 2 18 E_GENERAL cl (r1 2)];
       [OResult 2 19 E_DESTUNKNOWN (a (Some 0%N) [7%N] 7) (r1 2)];
       [];
-      [] ] /\
+      [];
+      [OReply 1 22 lc (r1 1) 14 66];
+      [OResult 2 23 0 cl (r1 2)] ] /\
   accepted_trace (judge minit (snd (run init c01_example))) = true.
 Proof. vm_compute. split; reflexivity. Qed.
